@@ -276,14 +276,45 @@ impl Scenario for C13 {
         let env = &w.env;
         let addresses = [ctx.p[0].clone(), ctx.gw.clone(), ctx.caller.clone()];
         let targets: [(&Address, &str, &[&str]); 1] = [(&ctx.gw, "/repo/contracts/axelar-gateway/src", &axmc::inventory::GATEWAY_KNOWN)];
+        let owner = [ctx.owner.clone()];
+        let sender = [ctx.p[0].clone()];
         for (contract, func, args) in axmc::inventory::unknown_calls(w, "C13", &targets, &addresses, 64) {
-            let snap = w.snap();
-            let call = w.call(&contract, &func, &args, Auth::Nobody);
-            let announced = call.events.iter().filter(|e| e.name() == "contract_called").count();
-            out.expect(!(call.ok && announced > 0), "unknown-entry-point.announced-unauthorised", || {
-                format!("gateway function `{}` (not among the known entry points), called with nobody's authorisation, emitted {} contract_called event(s): {:?}", func, announced, call.events.first())
-            });
-            w.restore(&snap);
+            for by_owner in [false, true] {
+                let snap = w.snap();
+                let call = w.call(&contract, &func, &args, if by_owner { Auth::By(&owner) } else { Auth::Nobody });
+                if !by_owner {
+                    let announced = call.events.iter().filter(|e| e.name() == "contract_called").count();
+                    out.expect(!(call.ok && announced > 0), "unknown-entry-point.announced-unauthorised", || {
+                        format!("gateway function `{}` (not among the known entry points), called with nobody's authorisation, emitted {} contract_called event(s): {:?}", func, announced, call.events.first())
+                    });
+                }
+                if call.ok {
+                    // whatever that function switched (on the owner's or on nobody's word): an outbound
+                    // call that still succeeds must still be announced, exactly once and exactly
+                    let payload = vec![0x12u8, 0x34];
+                    let c2 = w.call(
+                        &ctx.gw,
+                        "call_contract",
+                        &[ctx.p[0].to_val(), to_val(env, &sstr("ethereum")), to_val(env, &sstr("0xdest")), to_val(env, &sbytes(&payload))],
+                        Auth::By(&sender),
+                    );
+                    if c2.ok {
+                        let r = match_events(
+                            &c2.events,
+                            &[EvPat {
+                                contract: w.sc_addr(&ctx.gw),
+                                name: "contract_called",
+                                must: vec![w.sc_addr_val(&ctx.p[0]), sstr("ethereum"), sstr("0xdest"), sbytes(&keccak(&payload)), sbytes(&payload)],
+                            }],
+                            &["contract_called"],
+                        );
+                        out.expect(r.is_ok(), "unknown-entry-point.silenced-announcement", || {
+                            format!("after gateway function `{}` ran ({}), a successful call_contract was not announced: {}", func, if by_owner { "authorised by the owner" } else { "unauthorised" }, axmc::explore::truncate(&r.unwrap_err(), 300))
+                        });
+                    }
+                }
+                w.restore(&snap);
+            }
         }
         let _ = env;
     }
@@ -297,7 +328,7 @@ fn main() {
     main_for(|tier| {
         let mut o = Opts::new(tier, 1);
         o.level = "exploration";
-        o.rule = "exhaustive grid from 5 gateway states (fresh, with approvals, after a rotation, after three rotations with retention 1, inside the rotation-delay window after a bypass rotation): sender/authorisation in {principal signing; another principal signing; nobody; principal signing a different call; both signing; contract naming itself as caller; contract naming another address; account-type address authorised / unauthorised; unauthorised direct calls naming the gateway itself, another contract, the gateway's owner} x destination chain {empty, lower-case ASCII, 300 chars, multi-byte, mixed case with surrounding blanks} x destination address {hex, empty, non-ASCII} x payload length {0,1,31,32,33,135,136,137,272,4096,40960,65536,65537,200000} (Keccak rate boundaries; thorough: every length 0..=410 and 16 KiB / 16 KiB+1 / 64 KiB / 64 KiB+1 / 128 KiB / 128 KiB+1 / 1,000,000 for the ASCII destination); in every base state every gateway entry point found in the source tree that is not in the check's inventory is called unauthorised with arguments built from its parameter types and must not announce a call; one case is non-trivial and distinct when its (base state, sender mode, strings, payload) tuple differs".into();
+        o.rule = "exhaustive grid from 5 gateway states (fresh, with approvals, after a rotation, after three rotations with retention 1, inside the rotation-delay window after a bypass rotation): sender/authorisation in {principal signing; another principal signing; nobody; principal signing a different call; both signing; contract naming itself as caller; contract naming another address; account-type address authorised / unauthorised; unauthorised direct calls naming the gateway itself, another contract, the gateway's owner} x destination chain {empty, lower-case ASCII, 300 chars, multi-byte, mixed case with surrounding blanks} x destination address {hex, empty, non-ASCII} x payload length {0,1,31,32,33,135,136,137,272,4096,40960,65536,65537,200000} (Keccak rate boundaries; thorough: every length 0..=410 and 16 KiB / 16 KiB+1 / 64 KiB / 64 KiB+1 / 128 KiB / 128 KiB+1 / 1,000,000 for the ASCII destination); in every base state every gateway entry point found in the source tree that is not in the check's inventory is called unauthorised (it must not announce a call) and on the owner's authorisation with arguments built from its parameter types, and an outbound call that succeeds afterwards must still be announced; one case is non-trivial and distinct when its (base state, sender mode, strings, payload) tuple differs".into();
         (C13 { thorough: tier == "thorough" }, o)
     });
 }
